@@ -30,7 +30,7 @@ def verus_cmd(rs, seed=None, rlimit=None, threads=8):
     if rlimit:
         cmd += ['--rlimit', str(rlimit)]
     if seed is not None:
-        cmd += ['-V', 'smt-option=smt.random_seed=%d' % seed, '-V', 'smt-option=sat.random_seed=%d' % seed]
+        cmd += ['--smt-option', 'smt.random_seed=%d' % seed, '--smt-option', 'sat.random_seed=%d' % seed]
     cmd += ['--', '--error-format=json']
     return cmd
 
